@@ -22,6 +22,20 @@ CHECKS = {
    text="Bounded symbolic execution of the real partial_transpose / realignment on uninterpreted-sort entries: exactly the indices in S are "
         "exchanged (square and rectangular), involution / full transpose / complement identities, realignment index map and product form; "
         "cvxpy Variable path equals numeric path."),
+ "C04": dict(engine="symnp", category="other", design_ref="DESIGN.md §3 C04", technique=E1 + "; eigh/svd as uninterpreted kernels with algebraic contracts", note=NOTE_E1 + "; LAPACK eigh/svd trusted behind their algebraic contracts",
+   text="Bounded symbolic execution of apply_channel / kraus_to_choi / choi_to_kraus / partial_channel / natural_representation / channel_dim with all Kraus, Choi, "
+        "X and rho entries symbolic complex: every representation acts as sum_i A_i X B_i^dagger (rectangular pairs included), Choi = sum E_ij (x) Phi(E_ij), "
+        "partial channel = id (x) Phi (x) id at every position, natural representation on row-major vec; Choi->Kraus reproduces the Choi matrix minus the "
+        "dropped eigen/singular terms on every keep/drop path under the eigh/svd contracts."),
+ "C05": dict(engine="symnp", category="other", design_ref="DESIGN.md §3 C05", technique=E1, note=NOTE_E1,
+   text="Bounded symbolic execution of dual_channel / complementary_channel observed through the real apply_channel: adjoint identity for flat, nested, "
+        "paired (rectangular) and Choi forms with Phi, X, Y all symbolic; dual of dual; unital iff dual trace-preserving as equivalence of the two verdict "
+        "formulas; complementary-channel entries Tr(K_i rho K_j^dagger), trace identity, completeness guard."),
+ "C06": dict(engine="symnp", category="other", design_ref="DESIGN.md §3 C06", technique=E1 + "; eigenvalue/rank kernels uninterpreted; eigen-certificates in linear arithmetic", note=NOTE_E1 + "; LAPACK eigh/matrix_rank uninterpreted",
+   text="Channel predicates: exact=>True and margin=>False obligations for TP / unital / Hermiticity-preserving / unitary in every accepted representation; "
+        "CP / positive / quantum-channel verdicts proved equal to the eigenvalue test of the oracle's Choi matrix; choi_rank / is_extremal arguments. "
+        "Constructors with symbolic parameters act by their textbook formula through the real apply_channel, CP on the admissible range by eigen-certificate, "
+        "sqrt-parameterised Kraus constructors complete, consistent across forms and rejecting exactly outside [0,1]."),
 }
 NOT_BUILT = "check not built yet in this round (planned per DESIGN.md §3); nothing is claimed"
 NA = {f"C{i:02d}": NOT_BUILT for i in range(1, 21) if f"C{i:02d}" not in CHECKS}
@@ -32,7 +46,7 @@ ENGINES = [
  {"name": "sdpcap", "path": "sdpcap/", "serves_properties": [],
   "kind_free_text": "E2: capture of the cvxpy/picos program the real code builds, exact affine extraction on a basis, z3 obligations T1/T2/T3"},
 ]
-NOTES = ("fix: commits in /repo: cb7d15f (C01 omitted-dim root), 497f2e2 (C01 swap with 2-row dims); see known_findings.json 'fixed'. "
+NOTES = ("fix: commits in /repo: cb7d15f, 497f2e2 (C01), 03de9a5, c7b010c (C06); see known_findings.json 'fixed'. "
          "Exit codes: 0 held / 1 VIOLATION (reproduced on the real code) / 2 harness error.")
 
 checks = []
